@@ -31,7 +31,14 @@ K_Two    == {"none", "extent"}
 N_All    == {"Lin", "Log", "Square", "LinRel", "LinTanh"}
 N_Lin    == {"Lin"}
 N_Three  == {"Lin", "Log", "Square"}
+N_Two    == {"Lin", "Log"}
 FL_All   == { <<FALSE, FALSE>>, <<FALSE, TRUE>>, <<TRUE, FALSE>>, <<TRUE, TRUE>> }
 FL_Plain == { <<FALSE, FALSE>> }
 FL_Two   == { <<FALSE, FALSE>>, <<TRUE, TRUE>> }
+O_Default == { <<"sympy", TRUE, "asc", "comp">> }
+O_All    == {"sympy", "numpy", "math"} \X BOOLEAN \X {"asc", "rev"} \X {"comp", "formula"}
+\* every value of every option at least once, and the plausible pairs
+O_Hist   == { <<"sympy", TRUE, "asc", "comp">>, <<"numpy", TRUE, "rev", "formula">> }
+O_Some   == { <<"sympy", TRUE, "asc", "comp">>, <<"numpy", TRUE, "rev", "formula">>, <<"math", TRUE, "asc", "formula">>,
+              <<"sympy", FALSE, "rev", "comp">>, <<"numpy", FALSE, "asc", "comp">>, <<"sympy", TRUE, "rev", "formula">> }
 =============================================================================
